@@ -60,6 +60,23 @@ def run(ctx, idx):
             ok_use = True  # handed to a function defined inside the method: what that function does with its parameter is not followed (no verdict from this site)
         if isinstance(up, (ast.List, ast.Tuple)) and isinstance(up.ctx, ast.Load) and isinstance(par_.get(id(up)), ast.Assign):
             ok_use = True  # put into a list display that is stored under a name: building it cannot raise, its uses are not followed
+        if not ok_use:
+            # under a test that the raw value is a string (`isinstance(a.value, six.string_types) and a.value not in self.commands`):
+            # a string is hashable and iterable, nothing done with it there raises TypeError
+            STR_ = ("six.string_types", "str", "six.text_type", "(str,)", "six.string_types + (six.text_type,)")
+            is_str_test = lambda t_: isinstance(t_, ast.Call) and isinstance(t_.func, ast.Name) and t_.func.id == "isinstance" and len(t_.args) == 2 \
+                and K.src(t_.args[0]) == K.src(x_) and K.src(t_.args[1]) in STR_  # noqa: E731
+            conj = lambda t_: list(t_.values) if isinstance(t_, ast.BoolOp) and isinstance(t_.op, ast.And) else [t_]  # noqa: E731
+            ch_, an_ = x_, par_.get(id(x_))
+            while an_ is not None and not isinstance(an_, (ast.FunctionDef, ast.Lambda)):
+                if isinstance(an_, ast.BoolOp) and isinstance(an_.op, ast.And):
+                    before = an_.values[:next(i_ for i_, v_ in enumerate(an_.values) if v_ is ch_)]
+                    if any(is_str_test(v_) for v_ in before):
+                        ok_use = True
+                if isinstance(an_, (ast.If, ast.IfExp)) and ch_ is not an_.test and (ch_ is an_.body if isinstance(an_, ast.IfExp) else any(ch_ is b_ for b_ in an_.body)):
+                    if any(is_str_test(v_) for v_ in conj(an_.test)):
+                        ok_use = True
+                ch_, an_ = an_, par_.get(id(an_))
         ctx.ob("C13.g", "%s::raw-argument-value@%d" % (pr_.key, n_raw), K.rel(pr_), x_.lineno, ok_use,
                "the raw value goes to clean() / an isinstance test" if ok_use else
                "`%s` uses the raw value of an argument before it was cleaned (`%s`): a value of the wrong kind - a number where a list of results is declared, a list where one name is - raises TypeError here, in Program.run's own code, outside Command.run's wrapper" % (K.src(up)[:70] if up is not None else K.src(x_), K.src(x_)))
